@@ -100,6 +100,7 @@ type loopInfo struct {
 	stmt    ast.Node
 	spec    *LoopSpec
 	before  *State
+	head    *State // state at the start of an iteration (after the havoc, invariants assumed)
 	inScope token.Pos
 	decr0   *Term
 	items   []locItem // declared loop frame (nil: whole classes are havocked)
@@ -957,6 +958,9 @@ func (e *FnExec) initCalledGhosts(st *State) {
 			texts = append(texts, c.Text)
 		}
 	}
+	for _, c := range e.con.Guards {
+		texts = append(texts, c.Text)
+	}
 	for _, t := range texts {
 		for {
 			i := strings.Index(t, "called(")
@@ -1213,6 +1217,7 @@ func (e *FnExec) enterLoop(li *loopInfo, in *State) *State {
 	} else {
 		e.note("loop %d has no invariant: loop targets havocked", li.ordinal)
 	}
+	li.head = st.clone()
 	return st
 }
 
@@ -1249,6 +1254,17 @@ func (e *FnExec) backEdge(st *State, from *ssa.BasicBlock, li *loopInfo, cond *T
 			continue
 		}
 		e.assert(bs, "invariant-preserved", g, from.Instrs[len(from.Instrs)-1].Pos(), inv.Text, fmt.Sprintf("loop%d", li.ordinal))
+	}
+	for _, tr := range li.spec.Transitions {
+		env := e.specEnv(bs, li.inScope)
+		env.before = li.before
+		env.prev = li.head
+		g, err := env.boolExpr(tr)
+		if err != nil {
+			e.errf("%v", err)
+			continue
+		}
+		e.assert(bs, "transition", g, from.Instrs[len(from.Instrs)-1].Pos(), tr.Text, fmt.Sprintf("loop%d", li.ordinal))
 	}
 	if li.spec.Decreases != nil && li.decr0 != nil {
 		env := e.specEnv(bs, li.inScope)
